@@ -63,6 +63,25 @@ def spline_build_execs(ctx, r, nrep, tdom="W", with_knots=True, with_energy=True
                         cmds.append({"op": "note", "what": "same", "a": 1, "b": 2})
                     s = (order + 1) // 2
                     execs.append((n * dim * s * (2 if pair else 1) + 5, cmds))
+    # one object: built, read through its trajectory, updated with other data of the same or another size, read again (judged exactly
+    # each time: the trajectory hands out the LATEST interpolant)
+    for rep in range(nrep):
+        for order in gen.ORDERS:
+            for dim in (1, 2, 3, 4):
+                for (n1, n2) in ((1, 1), (2, 2), (4, 4), (3, 5), (5, 2)):
+                    k += 1
+                    cmds = [{"op": "reset"}]
+                    for stage, n in enumerate((n1, n2, n1)):
+                        pr = r.problem(order, dim, n, tdom=tdom)
+                        how = hows[(k + stage) % 2] if stage == 0 else hows[2 + (k + stage) % 2]
+                        cmds.append(gen.build_cmd(1, pr, how, bcar_for(order, r)))
+                        if with_knots:
+                            cmds.append({"op": "knots", "obj": 1, "desc": bool((k + stage) % 2)})
+                        cmds.append({"op": "eval", "obj": 1, "t": gen.hx(pr["t0"] + 0.61 * sum(pr["T"])), "d": stage % 3})
+                        if with_energy:
+                            cmds.append({"op": "energy", "obj": 1})
+                    cmds.append({"op": "state", "obj": 1})
+                    execs.append((3 * max(n1, n2) * dim * ((order + 1) // 2) + 5, cmds))
     # problems of W scaled uniformly in time by large powers of two (milliseconds ... hours; boundary derivatives rescaled so that it is
     # the same curve): the well-scaled domain of the properties bounds the RATIO of durations, not their overall size
     for rep in range(nrep):
